@@ -118,6 +118,19 @@ func (m *MMap) ResetFileSize() error {
 	return m.file.Truncate(m.virtualSize)
 }
 
+func (m *MMap) Truncate(size int64) error {
+	if size >= m.virtualSize {
+		return nil
+	}
+	// 仅调整虚拟文件大小, 物理文件在关闭时恢复为虚拟大小; 被丢弃的区域清零
+	if err := m.remap(size, int(m.virtualSize-size)); err != nil {
+		return err
+	}
+	clear(m.activeMap[size:m.virtualSize])
+	m.virtualSize = size
+	return nil
+}
+
 // 如果有必要, 扩展映射区域
 func (m *MMap) remap(newBase int64, dataSize int) error {
 	// 如果映射区域已包含所需数据, 直接返回
